@@ -5,7 +5,7 @@ from . import common
 PROP = "C01"
 LEVEL = "model_checking"
 RULE = (
-    "X-ENUM over the program families CTRL, CTRL2, EXPR, FUNC, FUNC2, FUNC3, FORFN, CONSTPROP, INTRINSIC, LATESTORE, AUG (10 augmented-assignment operators x 3 operands x 4 contexts), UNUSED (results never read whose computation has effects), DEV, LIST, DEAD (compile-time constant tests guarding effects and calls) (+ witness families of open findings); "
+    "X-ENUM over the program families CTRL, CTRL2, EXPR, FUNC, FUNC2, FUNC3, FORFN, CONSTPROP, INTRINSIC, LATESTORE, WRAP, CTRL3 (8 compound while tests x 10 break / continue / nested-loop bodies), AUG (10 augmented-assignment operators x 3 operands x 4 contexts), UNUSED (results never read whose computation has effects), DEV, LIST, DEAD (compile-time constant tests guarding effects and calls) (+ witness families of open findings); "
     "for each program X-RUN explores every device/stack answer sequence over the per-program alphabet V "
     "(full product when it fits the cap, else <= 2 deviations) up to K effects / T yields, on the emitted IC10 "
     "(reference machine M, zeroed and poisoned initial registers) and on the reference executor R (CPython + Num); "
@@ -34,6 +34,8 @@ def build_cases(tier):
     cases += F.constprop(tier)
     cases += F.intrinsic(tier)
     cases += F.latestore(tier)
+    cases += F.ctrl3(tier)
+    cases += F.wrap(tier)
     for c in F.augunused(tier):
         cases.append(dict(c, variants=[{}, {"inline_functions": False}, {"inline_functions": False, "use_push_pop_functions": True}]))
     for c in F.forfn(tier)[:: (2 if tier == "quick" else 1)]:
